@@ -216,10 +216,16 @@ class CirqSimulator(Backend):
             qubit_list = self.cirq.LineQubit.range(source_circuit.width)
             for i, qubit in enumerate(qubit_list):
                 translated_circuit.append(self.cirq.measure(qubit, key=str(i + n_meas)))
-            job_sim = cirq_simulator.run(translated_circuit, repetitions=self.n_shots)
+            if initial_statevector is None:
+                job_sim = cirq_simulator.run(translated_circuit, repetitions=self.n_shots)
+                shots_meas = [{key: val[j] for key, val in job_sim.measurements.items()} for j in range(self.n_shots)]
+            else:
+                # run() always starts from |0...0>: with an initial statevector the shots are simulated one by one from it
+                shots_meas = [cirq_simulator.simulate(translated_circuit, initial_state=cirq_initial_statevector).measurements
+                              for _ in range(self.n_shots)]
             samples = dict()
-            for j in range(self.n_shots):
-                bitstr = "".join([str(job_sim.measurements[str(i)][j, 0]) for i in range(n_meas + source_circuit.width)])
+            for meas in shots_meas:
+                bitstr = "".join([str(meas[str(i)][0]) for i in range(n_meas + source_circuit.width)])
                 samples[bitstr] = samples.get(bitstr, 0) + 1
             self.all_frequencies = {k: v / self.n_shots for k, v in samples.items()}
             frequencies = self.all_frequencies
